@@ -98,7 +98,8 @@ def bayesian_opt(
     best_idx = min(range(len(ys)), key=lambda i: ys[i])
     best_solution, best_obj = xs[best_idx][:], ys[best_idx]
 
-    length_scales = [(hi - lo) / 2 for lo, hi in bounds]
+    # a fixed dimension (lo == hi) contributes no distance; any positive scale keeps the kernel defined
+    length_scales = [(hi - lo) / 2 or 1.0 for lo, hi in bounds]
 
     def kernel(x1, x2):
         sq_dist = sum(((a - b) / ls) ** 2 for a, b, ls in zip(x1, x2, length_scales))
